@@ -46,6 +46,12 @@ pub(crate) fn r#enum_def(s: &ItemEnum) -> syn::Result<DerivedTS> {
         )?;
     }
 
+    if formatted_variants.is_empty() {
+        // every variant is skipped: no value of the enum is ever written, as for an enum
+        // without variants
+        return Ok(empty_enum(name, enum_attr));
+    }
+
     Ok(DerivedTS {
         crate_rename,
         inline: quote!([#(#formatted_variants),*].join(" | ")),
